@@ -892,6 +892,9 @@ func genC09Inject(r *rand.Rand, tier string, idx int) *World {
 	if chance(r, 0.15) {
 		w.Extra["ruPaused"] = "1"
 	}
+	if chance(r, 0.15) {
+		w.Extra["overlap"] = "1"
+	}
 	w.Extra["update"] = pick(r, "0", "1", "2", "2", "3", "4")
 	if w.Extra["update"] == "4" {
 		// a node the daemon does not target (stray pods there are clean-up work) and one that joins later
@@ -919,6 +922,28 @@ func bodyC09Inject(s *Sim) {
 	reqs := 10
 	fmt.Sscan(s.W.Extra["requests"], &reqs)
 	r := subRng(s.Seed, "c09req")
+	if s.W.Extra["overlap"] == "1" {
+		// Two controller instances overlap: the old one has read its objects and is about to act when a
+		// fresh instance takes over and runs a complete sync of the same replica set; then the old
+		// one goes on with what it had read. Its status write must not go through.
+		if e := s.Store.GetEDS(def.NS, def.Name); e != nil && e.Status.ActiveReplicaSet != "" {
+			rk := types.NamespacedName{Namespace: def.NS, Name: e.Status.ActiveReplicaSet}
+			s.Advance(s.maxFrequency() + time.Second)
+			s.StartReconcile(CtrlERS, rk)
+			for i := 0; i < 1000; i++ {
+				synctest.Wait()
+				p := s.canonicalPending()
+				if len(p) == 0 || p[0].IsWrite() {
+					break
+				}
+				s.grant(p[0], "")
+			}
+			s.Zombie()
+			s.RunTaskWhileParked(CtrlERS, rk)
+			s.Drain()
+			s.Stats.NonVacuous["C09.overlapping-instances"]++
+		}
+	}
 	if s.W.Extra["ruPaused"] == "1" {
 		// the rolling update is paused from the start: pods are still created for nodes lacking one,
 		// under the same slow start
